@@ -1,10 +1,10 @@
 package chk
 
 import (
-	"os"
 	"fmt"
 	"go/token"
 	"go/types"
+	"os"
 	"strings"
 
 	"golang.org/x/tools/go/ssa"
@@ -975,7 +975,9 @@ func runFmtPage(c *Ctx) {
 			key := "page type " + orStr(typ, "other") + map[bool]string{true: " (page 1)", false: ""}[hb != "p:b"]
 			seq := normSeq(travSeq(lp))
 			cnt := "(encoding/binary.bigEndian).Uint16(g:BigEndian, " + hb + "[const:3:const:5])"
-			ptr := func(h string) string { return "(encoding/binary.bigEndian).Uint32(g:BigEndian, " + h + "[const:8:const:12])" }
+			ptr := func(h string) string {
+				return "(encoding/binary.bigEndian).Uint32(g:BigEndian, " + h + "[const:8:const:12])"
+			}
 			var want []string
 			switch typ {
 			case "13":
@@ -1066,7 +1068,9 @@ func runMaster(c *Ctx) {
 		c.Undecided("anchor master callback", token.NoPos, "not found")
 		return
 	}
-	paths, _ := EnumLits(cl.Blocks[0], 0, TabOpts{Termer: t, EventOf: callEvents(p)})
+	// (a row read column by column in a counted loop over a small local array is walked iteration by iteration)
+	t.ConstPhis = true
+	paths, _ := EnumLits(cl.Blocks[0], 0, TabOpts{Termer: t, EventOf: callEvents(p), UnrollRoot: true, ArrayCells: true})
 	rec := "call:db.parseRecord#0"
 	want := map[string]string{
 		"typ":      "assert(" + rec + "[const:0],string)#0",
@@ -1104,7 +1108,8 @@ func runMaster(c *Ctx) {
 				if l, ok := lower[v]; ok {
 					v = l
 				}
-				got[e.Name] = v
+				// (a column read in the k-th round of an unrolled loop carries the round in its name)
+				got[e.Name] = reGen.ReplaceAllString(v, "")
 			}
 		}
 		for f, w := range want {
@@ -1120,7 +1125,13 @@ func runMaster(c *Ctx) {
 			}
 		}
 		for i, ty := range []string{"string", "string", "string", "int64"} {
-			if !lp.Has(fmt.Sprintf("type(%s[const:%d])", rec, i), token.EQL, ty, true) {
+			checked := false
+			for _, l := range lp.Lits {
+				if reGen.ReplaceAllString(l.Subject, "") == fmt.Sprintf("type(%s[const:%d])", rec, i) && l.Op == token.EQL && l.C == ty && l.Val {
+					checked = true
+				}
+			}
+			if !checked {
 				problems = append(problems, fmt.Sprintf("column %d used without its type being checked", i))
 			}
 		}
